@@ -11,6 +11,7 @@ restored clock value and every post-restart history (gossip, push/pull replays o
 arbitrary buffer images, join replay with or without ignore-old).
 -/
 import SerfModel.Model.EventBuf
+import SerfModel.Gen.RestartCutoff
 namespace SerfProofs.C14
 open SerfModel.EventBuf
 open SerfModel.Atomic (W)
@@ -121,5 +122,42 @@ theorem C14_wrap_counterexample :
 example : deliveries (α := Nat) (Buf.start 4 10#64 (9#64 + 1#64))
     [.gossip 9#64 1, .pushPull 12#64 false [some (8#64, [1, 2]), some (10#64, [3])], .gossip 11#64 4]
     = [(10#64, 3), (11#64, 4)] := by decide
+
+/-- **The cut-off as written in `Create`.** For any offset `k ≥ 1` added to the recorded time (`Create` writes
+`old…Clock + k`, regenerated below), nothing at or below `last` is delivered after the restart, provided
+`last + k` does not wrap. -/
+theorem C14_no_redelivery_offset (N : Nat) (c last : W) (k : Nat) (hk : 1 ≤ k) (hw : last.toNat + k < 2 ^ 64)
+    (post : List (In α)) :
+    ∀ d ∈ deliveries (Buf.start N c (last + BitVec.ofNat 64 k)) post, last < d.1 := by
+  intro d hd
+  have h := run_min post (Buf.start (α := α) N c (last + BitVec.ofNat 64 k)) d hd
+  simp only [Buf.start] at h
+  have h1 : (last + BitVec.ofNat 64 k).toNat = last.toNat + k := by
+    rw [BitVec.toNat_add, BitVec.toNat_ofNat]
+    have : k < 2 ^ 64 := by omega
+    rw [Nat.mod_eq_of_lt this, Nat.mod_eq_of_lt hw]
+  have h2 : (last + BitVec.ofNat 64 k).toNat ≤ d.1.toNat := BitVec.le_def.mp h
+  exact BitVec.lt_def.mpr (by omega)
+
+/-- The regenerated facts about `Create` (serf/serf.go): both cut-offs are computed from the snapshot's recorded
+event / query clock plus a constant ≥ 1, and the same recorded value is witnessed on the matching clock. -/
+theorem C14_restart_shape :
+    SerfModel.Gen.RestartCutoff.event.minFrom = "LastEventClock" ∧ 1 ≤ SerfModel.Gen.RestartCutoff.event.minOffset ∧
+    SerfModel.Gen.RestartCutoff.event.witnessFrom = "LastEventClock" ∧
+    SerfModel.Gen.RestartCutoff.query.minFrom = "LastQueryClock" ∧ 1 ≤ SerfModel.Gen.RestartCutoff.query.minOffset ∧
+    SerfModel.Gen.RestartCutoff.query.witnessFrom = "LastQueryClock" := by decide
+
+/-- **No re-delivery after a restart, for the offsets the current source uses** (events and queries). -/
+theorem C14_no_redelivery_current_tree (N : Nat) (c last : W) (post : List (In α))
+    (hE : last.toNat + SerfModel.Gen.RestartCutoff.event.minOffset < 2 ^ 64)
+    (hQ : last.toNat + SerfModel.Gen.RestartCutoff.query.minOffset < 2 ^ 64) :
+    (∀ d ∈ deliveries (Buf.start N c (last + BitVec.ofNat 64 SerfModel.Gen.RestartCutoff.event.minOffset)) post, last < d.1) ∧
+    (∀ d ∈ deliveries (Buf.start N c (last + BitVec.ofNat 64 SerfModel.Gen.RestartCutoff.query.minOffset)) post, last < d.1) :=
+  ⟨C14_no_redelivery_offset N c last _ C14_restart_shape.2.1 hE post,
+   C14_no_redelivery_offset N c last _ C14_restart_shape.2.2.2.2.1 hQ post⟩
+
+/-- Why the offset must be at least 1: with offset 0 the newest recorded event is delivered again. -/
+theorem C14_offset_zero_counterexample :
+    deliveries (α := Nat) (Buf.start 4 10#64 (9#64 + BitVec.ofNat 64 0)) [.gossip 9#64 1] = [(9#64, 1)] := by decide
 
 end SerfProofs.C14
